@@ -342,12 +342,21 @@ Definition depi_b (x : state) : bool :=
          | _, _ => false end
      | _ => true end) (indexed O (s_trans x)).
 
+(* a job lying in the pre-buffer of a machine has its first not-done operation on that machine (invariant PRE of
+   SMP/Deliver.v: jobs are delivered to the machine of their next operation) *)
+Definition pre_ok_b (x : state) : bool :=
+  forallb (fun jb => match j_loc jb with
+                     | BPre m => match first_not_done jb with
+                                 | Some k => match nth_error (j_ops jb) k with Some o => Nat.eqb (o_mach o) m | None => false end
+                                 | None => false end
+                     | _ => true end) (s_jobs x).
+
 (* the clause vector the monitors print, in this order *)
 Definition clause_vector (x : state) : list bool :=
   [ placement_b x; loc_b x; mach_hold_b x; agv_hold_b x; claims_b x; capacity_b x; flags_b x;
     feasible_b x; no_overdue_b x; past_b x; busy_op_b x; proc_inner_b x; output_done_b x;
-    outages_b x; outage_nonneg_b x; agv_phase_b x; idle_unclaimed_b x; sto_ok_b x; fresh_b x; agv_load_b x; fresh2_b x; nodep_b x; durations_b x; travel_gap_b x; setup_gap_b x; depi_b x ].
+    outages_b x; outage_nonneg_b x; agv_phase_b x; idle_unclaimed_b x; sto_ok_b x; fresh_b x; agv_load_b x; fresh2_b x; nodep_b x; durations_b x; travel_gap_b x; setup_gap_b x; depi_b x; pre_ok_b x ].
 
 End WithInst.
 
-Definition clause_names : list nat := seq0 26.
+Definition clause_names : list nat := seq0 27.
